@@ -28,6 +28,17 @@ type S struct {
 	b string
 }
 
+// SP is a comparable struct whose Go == (pointer identity) differs from deep equality.
+type SP struct {
+	P *int
+	N int
+}
+
+// SI is a struct whose type is comparable but whose values may be unhashable (Go == panics).
+type SI struct {
+	I interface{}
+}
+
 // F1 and F2 are the two distinct top-level funcs of the func kind.
 //
 //go:noinline
@@ -95,6 +106,10 @@ func kinds() []*kind {
 	add("bool", new(bool), goEq, false, val{"false", false}, val{"true", true})
 	add("struct", new(S), deepEq, false, val{"S{0,}", S{}}, val{"S{1,}", S{1, ""}}, val{"S{1,x}", S{1, "x"}}, val{"S{1,x}#2", S{1, "x"}}, val{"S{2,x}", S{2, "x"}}, val{"S{1,y}", S{1, "y"}})
 	add("[2]int", new([2]int), deepEq, false, val{"{0,0}", [2]int{}}, val{"{0,1}", [2]int{0, 1}}, val{"{1,0}", [2]int{1, 0}}, val{"{1,1}", [2]int{1, 1}}, val{"{1,1}#2", [2]int{1, 1}}, val{"{max,min}", [2]int{int(maxI64), int(minI64)}})
+	add("struct{*int}", new(SP), deepEq, false, val{"SP{nil,0}", SP{}}, val{"SP{&1,0}", SP{intp(1), 0}}, val{"SP{&1,0}#2", SP{intp(1), 0}}, val{"SP{&2,0}", SP{intp(2), 0}}, val{"SP{&1,1}", SP{intp(1), 1}})
+	add("struct{interface{}}", new(SI), deepEq, false, val{"SI{nil}", SI{}}, val{"SI{1}", SI{1}}, val{"SI{1}#2", SI{1}}, val{`SI{"1"}`, SI{"1"}}, val{"SI{[]int{1}}", SI{[]int{1}}}, val{"SI{[]int{1}}#2", SI{[]int{1}}}, val{"SI{[]int{2}}", SI{[]int{2}}})
+	add("[2]*int", new([2]*int), deepEq, false, val{"{nil,nil}", [2]*int{}}, val{"{&1,nil}", [2]*int{intp(1), nil}}, val{"{&1,&2}", [2]*int{intp(1), intp(2)}}, val{"{&1,&2}#2", [2]*int{intp(1), intp(2)}}, val{"{&2,&1}", [2]*int{intp(2), intp(1)}})
+	add("[1]interface{}", new([1]interface{}), deepEq, false, val{"{nil}", [1]interface{}{}}, val{"{1}", [1]interface{}{1}}, val{"{map}", [1]interface{}{map[string]int{"a": 1}}}, val{"{map}#2", [1]interface{}{map[string]int{"a": 1}}}, val{"{S{1,x}}", [1]interface{}{S{1, "x"}}})
 	add("[]int", new([]int), deepEq, true, val{"nil", []int(nil)}, val{"empty", []int{}}, val{"{0}", []int{0}}, val{"{1}", []int{1}}, val{"{1}#2", []int{1}}, val{"{1,2}", []int{1, 2}}, val{"{2,1}", []int{2, 1}}, val{"{1,2,3}", []int{1, 2, 3}})
 	add("map[string]int", new(map[string]int), deepEq, true, val{"nil", map[string]int(nil)}, val{"empty", map[string]int{}}, val{"{a:1}", map[string]int{"a": 1}}, val{"{a:1}#2", map[string]int{"a": 1}},
 		val{"{a:2}", map[string]int{"a": 2}}, val{"{b:1}", map[string]int{"b": 1}}, val{"{a:1,b:2}", map[string]int{"a": 1, "b": 2}})
